@@ -81,6 +81,20 @@ CHECKS = {
                  "every unregistered ufunc/method/function with a polynomial in each dispatch-relevant position "
                  "(exhaustive) and every registry entry through all its spellings.",
          "note": BASE_NOTE + " Which positions take part in numpy's protocol is decided with a probe array subclass."},
+ "C09": {"ref": "5/C09", "technique": "Lean 4 proof for every index map (gather = ring homomorphism on columns) + correspondence with index maps obtained from numpy itself",
+         "text": "gather_den: applying any index map to every coefficient column moves whole elements (element i of the "
+                 "result is element sigma(i) of the operand), names untouched, cleaning harmless (gather_clean_den); fill "
+                 "positions hold zero (gatherFill_zero/_copy). 31 functions / methods / indexing forms are run on 0-3-d "
+                 "arrays incl. transposed views; the expected placement comes from running the same numpy function on "
+                 "index arrays and gathering in the Lean model; joins use operands with different names and terms.",
+         "note": BASE_NOTE + " numpy's shape functions are assumed to be value-independent rearrangements (that is what running them on index arrays uses)."},
+ "C10": {"ref": "5/C10", "technique": "Lean 4 proof (additive maps act coefficient-wise; products; det = Matrix.det by induction) + correspondence with weights/groups obtained from numpy",
+         "text": "linear_coeff: any additive map applied to all columns acts coefficient-wise on the denotation, and every "
+                 "weight matrix gives an additive map (linearCol_add) - covering sum, cumsum, diff, ediff1d, mean for every "
+                 "axis/keepdims/n; product_den for prod/inner/outer/matmul; det_spec: the standard-minor Laplace expansion "
+                 "equals Mathlib's Matrix.det for every size (the shipped cyclic-minor recursion does not: det_old_wrong). "
+                 "Weights come from numpy on unit vectors, product groups from numpy on index arrays.",
+         "note": BASE_NOTE + " Known findings D21 (matmul with 1-d operands) and D22 (prod over an axis tuple) are pinned by the package's docstrings/tests and reported as KNOWN-FINDING."},
 }
 CLAIMED = set(CHECKS)
 NOT_APPLICABLE = {f"C{i:02d}": "check under construction in this session (will be claimed once built)"
